@@ -32,12 +32,22 @@ FIXED = [
  ("C18", "c09fcf1", "setting a reference field (or a nested hybrid field holding references) from plain data or None left the previously assigned dressed object as the attribute value", "corpus/C18/ref_then_data.json"),
  ("C10", "71cc20e", "Struct._update byte-copied a same-class struct that holds references: the assigned element's references pointed to unrelated bytes", "corpus/C18/nested_with_ref_assign.json"),
 ]
-OPEN = []
+_STALE = ("a whole-array update that moves the items of a root array of dynamically sized items, made through a view (_from_buffer) "
+          "of that array, leaves the constructor handle's cached item offsets stale: reads through the old handle return other items' bytes "
+          "(Array keeps a Python-side copy of the item-offset table per handle; only the updating handle is refreshed)")
+OPEN = [
+ {"status": "open", "property": "C10", "id": "C10-stale-root-handle", "feature": "root array of dynamic items + whole-array update with via != handle",
+  "call_site": "xobjects/array.py Array._update / Array.__init__ (self._offsets)", "what": _STALE, "example": "known/C10_stale_root_handle.json"},
+ {"status": "open", "property": "C09", "id": "C09-stale-root-handle", "feature": "root array of dynamic items + later whole-array write with via != handle",
+  "call_site": "xobjects/array.py Array._update / Array.__init__ (self._offsets)", "what": _STALE, "example": "known/C09_stale_root_handle.json"},
+]
 out = {"comment": "Read-only at run time. 'fixed' entries suppress nothing: the example is in corpus/ and is re-run by the check, so a regression is reported as a violation. 'open' entries are attributed by feature + counterfactual (DESIGN.md section 7).",
        "findings": []}
 for prop, commit, what, example in FIXED:
     out["findings"].append({"status": "fixed", "property": prop, "id": f"{prop}-{commit}", "commit": commit, "what": what, "example": example,
                             "line": f"fixed: property={prop} {commit} {what}"})
+for o in OPEN:
+    o["line"] = f"KNOWN-FINDING: property={o['property']} {o['what']}"
 out["findings"] += OPEN
 json.dump(out, open(os.path.join(HERE, "known_findings.json"), "w"), indent=1)
 missing = [f["example"] for f in out["findings"] if not os.path.exists(os.path.join(HERE, f["example"]))]
